@@ -97,6 +97,9 @@ func loopCount(fn *ssa.Function, i ssa.Instruction, field string) string {
 		}
 		if x, isLen := core.IsLenOf(cl.bound); isLen && fieldOfPath(core.PathOf(x)) == field {
 			if z, isZ := core.ConstInt(cl.init); isZ && z == 0 && cl.step == 1 && cl.op == token.LSS {
+				if k, ok := freshFieldLen(fn, x, l.Header); ok {
+					return fmt.Sprint(k) // the field was given a fresh slice of constant length before the loop
+				}
 				return "all"
 			}
 		}
@@ -377,6 +380,16 @@ func (c *Ctx) readerLayout(fn *ssa.Function, depth int) ([]layoutEvent, []string
 						fields[fieldOfPath(core.PathOf(fa))] = true
 					}
 				}
+				// an element of the slice a receiver field holds (the field was given a fresh slice first)
+				if ia, ok := st.Addr.(*ssa.IndexAddr); ok {
+					if ld, isLd := ia.X.(*ssa.UnOp); isLd && ld.Op == token.MUL {
+						if fa, isFA := ld.X.(*ssa.FieldAddr); isFA {
+							if _, isParam := fa.X.(*ssa.Parameter); isParam {
+								fields[fieldOfPath(core.PathOf(fa))] = true
+							}
+						}
+					}
+				}
 			}
 		})
 		if len(fields) != 1 {
@@ -519,7 +532,36 @@ func (c *Ctx) d5Reader(name string, size int64, isDecoder func(*ssa.Function) bo
 			given = nonNil[0]
 		}
 	}
-	if given != buf {
+	// two whole-array slice expressions of the same local array are the same buffer
+	sameWhole := func(a, b ssa.Value) bool {
+		sa, okA := a.(*ssa.Slice)
+		sb, okB := b.(*ssa.Slice)
+		if !okA || !okB || sa.X != sb.X {
+			return false
+		}
+		whole := func(s *ssa.Slice) bool {
+			if s.Low != nil {
+				if k, isK := core.ConstInt(s.Low); !isK || k != 0 {
+					return false
+				}
+			}
+			if s.High == nil {
+				return true
+			}
+			k, isK := core.ConstInt(s.High)
+			if !isK {
+				return false
+			}
+			if pt, isPtr := s.X.Type().Underlying().(*types.Pointer); isPtr {
+				if at, isArr := pt.Elem().Underlying().(*types.Array); isArr {
+					return at.Len() == k
+				}
+			}
+			return false
+		}
+		return whole(sa) && whole(sb)
+	}
+	if given != buf && !sameWhole(given, buf) {
 		ok = false
 		why = append(why, "the decoder is not given the buffer that was read")
 	}
@@ -528,4 +570,52 @@ func (c *Ctx) d5Reader(name string, size int64, isDecoder func(*ssa.Function) bo
 		why = append(why, "decode does not follow the read")
 	}
 	c.Check(ok, "D5", key, ra.Pos(), name+": "+strings.Join(why, "; "), fmt.Sprintf("reads exactly %d bytes", size), "decoded by "+decName)
+}
+
+// freshFieldLen: v is a load of a field of a parameter that this function has, on every way to block at, set to a
+// freshly made slice of constant length (one store to that field, dominating at).
+func freshFieldLen(fn *ssa.Function, v ssa.Value, at *ssa.BasicBlock) (int64, bool) {
+	ld, ok := core.StripConv(v).(*ssa.UnOp)
+	if !ok || ld.Op != token.MUL {
+		return 0, false
+	}
+	fa, ok := ld.X.(*ssa.FieldAddr)
+	if !ok {
+		return 0, false
+	}
+	if _, isParam := fa.X.(*ssa.Parameter); !isParam {
+		return 0, false
+	}
+	want := core.PathOf(fa)
+	var sts []*ssa.Store
+	core.AllInstrs(fn, func(i ssa.Instruction) {
+		if st, isSt := i.(*ssa.Store); isSt {
+			if _, isFA := st.Addr.(*ssa.FieldAddr); isFA && core.PathOf(st.Addr) == want {
+				sts = append(sts, st)
+			}
+		}
+	})
+	if len(sts) != 1 || !(sts[0].Block() == at || sts[0].Block().Dominates(at)) {
+		return 0, false
+	}
+	switch x := sts[0].Val.(type) {
+	case *ssa.MakeSlice:
+		if k, isK := core.ConstInt(x.Len); isK {
+			return k, true
+		}
+	case *ssa.Slice:
+		if a, isAlloc := x.X.(*ssa.Alloc); isAlloc && x.Low == nil {
+			if pt, isPtr := a.Type().Underlying().(*types.Pointer); isPtr {
+				if arr, isArr := pt.Elem().Underlying().(*types.Array); isArr {
+					if x.High == nil {
+						return arr.Len(), true
+					}
+					if k, isK := core.ConstInt(x.High); isK {
+						return k, true
+					}
+				}
+			}
+		}
+	}
+	return 0, false
 }
